@@ -65,3 +65,19 @@ template struct FEAT::Geometry::Intern::DualAdaptor<ConformalMesh<Shape::Hypercu
 template struct FEAT::Geometry::Intern::DualAdaptor<ConformalMesh<Shape::Simplex<1>, 1, double>>;
 template struct FEAT::Geometry::Intern::DualAdaptor<ConformalMesh<Shape::Simplex<2>, 2, double>>;
 template struct FEAT::Geometry::Intern::DualAdaptor<ConformalMesh<Shape::Simplex<3>, 3, double>>;
+
+// mesh node refinement (halos / patches / mesh parts) and mesh permutations (instantiation only)
+#include <kernel/geometry/mesh_node.hpp>
+template<typename Mesh_>
+void c10_node_members()
+{
+  auto p_refine = &RootMeshNode<Mesh_>::refine_unique;
+  auto p_permute = &RootMeshNode<Mesh_>::create_permutation;
+  (void)p_refine; (void)p_permute;
+}
+template void c10_node_members<ConformalMesh<Shape::Hypercube<1>, 1, double>>();
+template void c10_node_members<ConformalMesh<Shape::Hypercube<2>, 2, double>>();
+template void c10_node_members<ConformalMesh<Shape::Hypercube<3>, 3, double>>();
+template void c10_node_members<ConformalMesh<Shape::Simplex<1>, 1, double>>();
+template void c10_node_members<ConformalMesh<Shape::Simplex<2>, 2, double>>();
+template void c10_node_members<ConformalMesh<Shape::Simplex<3>, 3, double>>();
